@@ -16,6 +16,7 @@
 -/
 import Ladybug.Proofs.C02Slice
 import Ladybug.Proofs.C02Order
+import Ladybug.Proofs.C02Hist
 import Ladybug.Props.C04
 
 open Cal
@@ -513,5 +514,127 @@ theorem C02_validated_cont {α : Type} (c : Cont α) (r : Disc α) :
   constructor
   · intro pat h; exact (C02_validated c.toDisc r).1 pat h
   · intro p h; exact (C02_validated c.toDisc r).2.1 p h
+
+/-! ### Histories on one object (Model/FilterObj.lean)
+
+  A collection is an object with setters (`values = …`, `coll[i] = v`), an in-place operation
+  (`convert_to_culled_timestep`), immutable twins that refuse them, conversions to a twin, and – on
+  the continuous class – the lazily filled slot `_datetimes`.  `Obj` is the object as the code holds
+  it (slot included), `o.view` what a filter can see of it, `o.fresh` the object a constructor builds
+  from that public state, `step` / `run` one operation / a history, `Coherent` the side condition
+  that every in-place cull of a *continuous* object leaves date-times and header period in step (it
+  does when the new timestep divides the old one; `C02_cull_nondividing_counterexample` shows what
+  happens otherwise). -/
+
+/-- **Reads are pure.**  What a filter (or a plain look at the collection) answers is the answer of a
+    fresh object built from the public state; a read leaves the public state (view, mutability) as
+    it was; and the answer to a question does not depend on the questions asked before it. -/
+theorem C02_read_pure (hoyOf : Nat → Rat) (o : Obj) (h : o.Inv) (r r' : Read) :
+    (o.observe hoyOf r).1 = (o.fresh.observe hoyOf r).1 ∧
+    (o.observe hoyOf r).2.view = o.view ∧ (o.observe hoyOf r).2.mutable = o.mutable ∧
+    (o.observe hoyOf r).2.Inv ∧
+    ((o.observe hoyOf r).2.observe hoyOf r').1 = (o.observe hoyOf r').1 := by
+  obtain ⟨h1, h2, h3⟩ := observe_obj hoyOf o r
+  refine ⟨?_, h1, h2, h3 h, ?_⟩
+  · show o.view.answer hoyOf r = o.fresh.view.answer hoyOf r
+    rw [view_fresh o h]
+  · show (o.observe hoyOf r).2.view.answer hoyOf r' = o.view.answer hoyOf r'
+    rw [h1]
+
+/-- **A refused operation changes nothing.**  When an operation of a history is refused (the caller
+    sees an exception: wrong-length or non-list values, an index out of range, an invalid timestep,
+    any setter of an immutable twin, a conversion the class does not have, a filter that fails), the
+    object keeps its public state and every later question is answered as before. -/
+theorem C02_refused_preserves (hoyOf : Nat → Rat) (o : Obj) (op : Op) (e : OErr)
+    (herr : (step hoyOf o op).2 = .err e) (r : Read) :
+    (step hoyOf o op).1.view = o.view ∧ (step hoyOf o op).1.mutable = o.mutable ∧
+    ((step hoyOf o op).1.observe hoyOf r).1 = (o.observe hoyOf r).1 := by
+  obtain ⟨h1, h2⟩ := step_refused hoyOf o op e herr
+  refine ⟨h1, h2, ?_⟩
+  show (step hoyOf o op).1.view.answer hoyOf r = o.view.answer hoyOf r
+  rw [h1]
+
+/-- **A history is indistinguishable from a fresh object.**  After any history of operations
+    (reads in any order and number, setters, in-place culls, refused operations, conversions to
+    twins, going on with a filter result) the slot of the object is coherent with its public state,
+    and every question is answered exactly as a fresh object built from the final public state
+    answers it.  Induction over the history. -/
+theorem C02_history_refines_fresh (hoyOf : Nat → Rat) (o : Obj) (ops : List Op) (h : o.Inv)
+    (hc : Coherent hoyOf o ops) (r : Read) :
+    (run hoyOf o ops).1.Inv ∧
+    ((run hoyOf o ops).1.observe hoyOf r).1 = ((run hoyOf o ops).1.fresh.observe hoyOf r).1 := by
+  have hi := run_inv hoyOf ops o h hc
+  exact ⟨hi, (C02_read_pure hoyOf _ hi r r).1⟩
+
+private def exObj : Obj := ⟨.cont, true, ⟨1, 1, 0, 1, 1, 23, 2, false⟩, (List.range 48).map Int.ofNat, none, true⟩
+private def exHoy : Nat → Rat := fun m => (m : Rat) / 60
+
+/-- Non-vacuity: a history with a read, a refused assignment, an in-place cull to the hourly steps, a
+    conversion to the immutable twin and a refused item assignment satisfies the hypotheses. -/
+example : exObj.Inv ∧ Coherent exHoy exObj
+    [.read (.keys [0, 30]), .setValues [1, 2, 3], .cull 1, .toImmutable, .setItem 0 5] := by
+  refine ⟨by decide, trivial, trivial, ?_, trivial, trivial, trivial⟩
+  intro _
+  decide +kernel
+
+/-- **After any history the filters are the pure filters of the public state** (continuous class):
+    the minute filter and the period filter of the object reached by a history are
+    `Cont.filterByMoys` / `Cont.filterByAP` on (header period, values) – so `C02_cont_moys`,
+    `C02_cont_eq_slow`, `C02_cont_period`, `C02_window_filter` speak about every object a history can
+    produce, not only about fresh ones. -/
+theorem C02_history_cont_filters (hoyOf : Nat → Rat) (o : Obj) (ops : List Op) (h : o.Inv)
+    (hc : Coherent hoyOf o ops) (hk : (run hoyOf o ops).1.kind = .cont) (req : List Int) (f : AP) :
+    ((run hoyOf o ops).1.observe hoyOf (.keys req)).1 =
+      outOfKeyed .disc (Cont.filterByMoys req ⟨(run hoyOf o ops).1.ap, (run hoyOf o ops).1.vals⟩) ∧
+    ((run hoyOf o ops).1.observe hoyOf (.period f)).1 =
+      outOfRes (Cont.filterByAP f ⟨(run hoyOf o ops).1.ap, (run hoyOf o ops).1.vals⟩) := by
+  have hi := run_inv hoyOf ops o h hc
+  constructor
+  · show (run hoyOf o ops).1.view.answer hoyOf (.keys req) = _
+    rw [← contMoys_eq _ hi hk]
+    simp only [View.answer, Obj.view, hk]
+  · show (run hoyOf o ops).1.view.answer hoyOf (.period f) = _
+    rw [← contPeriod_eq _ hi hk]
+    simp only [View.answer, Obj.view, hk]
+
+/-- **After any history a requested minute of a continuous collection gets its pair**: the
+    combination of `C02_history_cont_filters` and `C02_cont_moys`. -/
+theorem C02_history_cont_moys (hoyOf : Nat → Rat) (o : Obj) (ops : List Op) (h : o.Inv)
+    (hc : Coherent hoyOf o ops) (hk : (run hoyOf o ops).1.kind = .cont)
+    (hwf : (⟨(run hoyOf o ops).1.ap, (run hoyOf o ops).1.vals⟩ : Cont Int).WF)
+    (req : List Nat) (hne : req ≠ []) (hreq : ∀ m ∈ req, m ∈ (run hoyOf o ops).1.ap.moys) :
+    ∃ ps, ((run hoyOf o ops).1.observe hoyOf (.keys (req.map Int.ofNat))).1 =
+        .keyed .disc (run hoyOf o ops).1.ap true ps ∧
+      ps.map Prod.fst = req ∧
+      ∀ p ∈ ps, p ∈ (run hoyOf o ops).1.ap.moys.zip (run hoyOf o ops).1.vals := by
+  obtain ⟨r, h1, h2, h3, h4, h5⟩ := C02_cont_moys _ hwf req hne hreq
+  refine ⟨r.pairs, ?_, h4, h5⟩
+  rw [(C02_history_cont_filters hoyOf o ops h hc hk (req.map Int.ofNat) (AP.annual false 1)).1, h1]
+  simp only [outOfKeyed, h2, h3]
+
+/-- Evaluated instances of the side condition (a test, not a theorem): culling 5-minute data over one day
+    in place to every timestep that divides 12 keeps date-times and header in step; the general statement
+    "new timestep ∣ old timestep → `cullCoherent`" is not proved. -/
+example : ∀ ts ∈ [1, 2, 3, 4, 6, 12],
+    cullCoherent ⟨.cont, true, ⟨2, 28, 0, 2, 28, 23, 12, false⟩, (List.range 288).map Int.ofNat, none, true⟩ ts := by
+  decide +kernel
+
+private def cxObj : Obj :=
+  ⟨.cont, true, ⟨1, 1, 0, 1, 1, 23, 4, false⟩, (List.range 96).map Int.ofNat, none, true⟩
+
+/-- **The in-place cull of a continuous collection to a timestep that does not divide its own breaks
+    the filters** (the code as it is; recorded finding `C02-cont-cull-nondividing-timestep`):
+    a quarter-hourly collection over 1 Jan culled in place to 3 steps per hour keeps its 24 hourly
+    values under a header of 3 steps per hour; asked for 01:00 (minute 60, present) it answers with
+    the pair of 03:00, while a fresh object with the same date-times answers (60, 4).  So the side
+    condition `Coherent` of `C02_history_refines_fresh` cannot be dropped. -/
+theorem C02_cull_nondividing_counterexample :
+    cxObj.Inv ∧ ¬ cullCoherent cxObj 3 ∧ ¬ (step exHoy cxObj (.cull 3)).1.Inv ∧
+    ((step exHoy cxObj (.cull 3)).1.observe exHoy (.keys [60])).1 =
+      .keyed .disc ⟨1, 1, 0, 1, 1, 23, 3, false⟩ true [(180, 12)] ∧
+    ((⟨.disc, true, (step exHoy cxObj (.cull 3)).1.ap, (step exHoy cxObj (.cull 3)).1.vals,
+        (step exHoy cxObj (.cull 3)).1.dts, true⟩ : Obj).observe exHoy (.keys [60])).1 =
+      .keyed .disc ⟨1, 1, 0, 1, 1, 23, 3, false⟩ true [(60, 4)] := by
+  decide +kernel
 
 end Filter
